@@ -84,7 +84,7 @@ PROPS = {
         "title": "Value types never panic and clones are independent",
         "profiles": ["dev", "release"],
         "thorough_profiles": ["miri"],
-        "scale": {"miri": 0.002},
+        "scale": {"miri": 0.01},
         "crash_is_violation": True,
         "rule": ("panic monitor (catch_unwind + hook recording message/location) around every public constructor, "
                  "accessor, conversion and mutator of the stun-rs value types and the agent's StunAttributes / client "
@@ -233,7 +233,7 @@ PROPS = {
         "title": "Untrusted bytes never crash the decoder, the client or the reassembler",
         "profiles": ["dev", "release"],
         "thorough_profiles": ["asan", "miri"],
-        "scale": {"asan": 0.25, "miri": 0.0004},
+        "scale": {"asan": 0.25, "miri": 0.003},
         "crash_is_violation": True,
         "cpu_stall_limit": 60,
         "rule": ("structure-aware mutation (bit flips, byte sets, truncation at every offset, extension, header / attribute / "
